@@ -535,3 +535,146 @@ Proof.
   assert (E3 : (1 # 200 == (1 # 2) * (1 # 100))%Q) by reflexivity. rewrite E3.
   apply Qmult_le_compat_r; [exact H | discriminate].
 Qed.
+
+(* ====================================================================================== *)
+(* ================= Part 2: text level ================================================= *)
+From Coq Require Import String Ascii DecimalString DecimalNat DecimalN.
+Local Open Scope string_scope.
+
+(* ---------- strings ---------- *)
+Lemma sapp_assoc (a b c : string) : (a ++ b) ++ c = a ++ (b ++ c).
+Proof. induction a as [|x a IH]; simpl; [reflexivity | rewrite IH; reflexivity]. Qed.
+
+Lemma sapp_nil_r (a : string) : a ++ "" = a.
+Proof. induction a as [|x a IH]; simpl; [reflexivity | rewrite IH; reflexivity]. Qed.
+
+(* every character of s satisfies P *)
+Fixpoint sall (P : ascii -> bool) (s : string) : bool :=
+  match s with EmptyString => true | String c s' => P c && sall P s' end.
+
+Lemma sall_app P a b : sall P (a ++ b) = sall P a && sall P b.
+Proof. induction a as [|x a IH]; simpl; [reflexivity | rewrite IH, andb_assoc; reflexivity]. Qed.
+
+Lemma sall_impl (P R : ascii -> bool) s :
+  (forall c, P c = true -> R c = true) -> sall P s = true -> sall R s = true.
+Proof.
+  intros H. induction s as [|c s IH]; simpl; [auto|].
+  rewrite !andb_true_iff. intros [H1 H2]. split; [apply H; exact H1 | apply IH; exact H2].
+Qed.
+
+Definition digitc (c : ascii) : bool := let k := nat_of_ascii c in ((48 <=? k) && (k <=? 57))%nat.
+Definition not_ws (c : ascii) : bool := negb (is_ws c).
+Definition not_char (x : ascii) (c : ascii) : bool := negb (Ascii.eqb c x).
+
+Lemma digitc_not_ws c : digitc c = true -> not_ws c = true.
+Proof.
+  unfold digitc, not_ws, is_ws. set (k := nat_of_ascii c). intros H.
+  destruct (Nat.leb_spec 48 k); destruct (Nat.leb_spec k 57); try discriminate.
+  destruct (Nat.leb_spec 9 k); destruct (Nat.leb_spec k 13); destruct (Nat.leb_spec 28 k);
+    destruct (Nat.leb_spec k 32); simpl; try reflexivity; lia.
+Qed.
+
+Lemma digitc_not_char x c : digitc x = false -> digitc c = true -> not_char x c = true.
+Proof.
+  unfold not_char. intros Hx Hc. destruct (Ascii.eqb_spec c x) as [->|]; [congruence | reflexivity].
+Qed.
+
+Lemma string_of_uint_digits d : sall digitc (NilEmpty.string_of_uint d) = true.
+Proof. induction d; simpl; auto. Qed.
+
+Lemma string_of_uint_empty d : NilEmpty.string_of_uint d = "" -> d = Decimal.Nil.
+Proof. destruct d; simpl; intros H; [reflexivity | discriminate ..]. Qed.
+
+Lemma print_nat_digits k : sall digitc (print_nat k) = true.
+Proof. apply string_of_uint_digits. Qed.
+Lemma print_N_digits k : sall digitc (print_N k) = true.
+Proof. apply string_of_uint_digits. Qed.
+
+Lemma print_nat_nonempty k : print_nat k <> "".
+Proof.
+  unfold print_nat. intros H. apply string_of_uint_empty in H.
+  assert (E : Nat.of_uint (Nat.to_uint k) = Nat.of_uint Decimal.Nil) by (rewrite H; reflexivity).
+  rewrite DecimalNat.Unsigned.of_to in E. simpl in E. subst k. discriminate H.
+Qed.
+
+Lemma print_N_nonempty k : print_N k <> "".
+Proof.
+  unfold print_N. intros H. apply string_of_uint_empty in H.
+  assert (E : N.of_uint (N.to_uint k) = N.of_uint Decimal.Nil) by (rewrite H; reflexivity).
+  rewrite DecimalN.Unsigned.of_to in E. simpl in E. subst k. discriminate H.
+Qed.
+
+(* int(print(k)) = k *)
+Theorem parse_print_nat k : parse_nat (print_nat k) = Some k.
+Proof.
+  unfold parse_nat. pose proof (print_nat_nonempty k) as Hne.
+  destruct (print_nat k) eqn:E; [contradiction|]. rewrite <- E. unfold print_nat.
+  rewrite NilEmpty.usu. simpl. rewrite DecimalNat.Unsigned.of_to. reflexivity.
+Qed.
+
+Theorem parse_print_N k : parse_N (print_N k) = Some k.
+Proof.
+  unfold parse_N. pose proof (print_N_nonempty k) as Hne.
+  destruct (print_N k) eqn:E; [contradiction|]. rewrite <- E. unfold print_N.
+  rewrite NilEmpty.usu. simpl. rewrite DecimalN.Unsigned.of_to. reflexivity.
+Qed.
+
+Lemma digit_val_char k : (k < 10)%nat -> digit_val (digit_char k) = Some (Z.of_nat k).
+Proof.
+  intros H. do 10 (destruct k as [|k]; [reflexivity|]). lia.
+Qed.
+
+Lemma digit_char_digit k : digitc (digit_char k) = true.
+Proof.
+  do 10 (destruct k as [|k]; [reflexivity|]). destruct k; reflexivity.
+Qed.
+
+(* ---------- split() ---------- *)
+Lemma split_ws_aux_word a : forall cur s,
+  sall not_ws a = true -> split_ws_aux cur (a ++ s) = split_ws_aux (cur ++ a) s.
+Proof.
+  induction a as [|c a IH]; intros cur s H; simpl.
+  - rewrite sapp_nil_r. reflexivity.
+  - simpl in H. apply andb_true_iff in H. destruct H as [H1 H2].
+    unfold not_ws in H1. apply negb_true_iff in H1. rewrite H1.
+    rewrite IH by exact H2. rewrite sapp_assoc. reflexivity.
+Qed.
+
+(* a blank-free non-empty word followed by a blank *)
+Lemma split_ws_word_space a s :
+  sall not_ws a = true -> a <> "" -> split_ws (a ++ String " " s) = (a :: split_ws s)%list.
+Proof.
+  intros H Hne. unfold split_ws. rewrite split_ws_aux_word by exact H. simpl.
+  destruct a; [contradiction | reflexivity].
+Qed.
+
+Lemma split_ws_last_word a :
+  sall not_ws a = true -> a <> "" -> split_ws a = [a].
+Proof.
+  intros H Hne. unfold split_ws. rewrite <- (sapp_nil_r a) at 1.
+  rewrite split_ws_aux_word by exact H. simpl. destruct a; [contradiction | reflexivity].
+Qed.
+
+Lemma split_ws_lead_space s : split_ws (String " " s) = split_ws s.
+Proof. reflexivity. Qed.
+
+(* split(c) of a text without c *)
+Lemma split_on_aux_none c s : forall cur,
+  sall (not_char c) s = true -> split_on_aux c cur s = [cur ++ s].
+Proof.
+  induction s as [|a s IH]; intros cur H; simpl.
+  - rewrite sapp_nil_r. reflexivity.
+  - simpl in H. apply andb_true_iff in H. destruct H as [H1 H2].
+    unfold not_char in H1. apply negb_true_iff in H1. rewrite H1.
+    rewrite IH by exact H2. rewrite sapp_assoc. reflexivity.
+Qed.
+
+Lemma split_at_dot_word a : forall cur s,
+  sall (not_char ".") a = true -> split_at_dot cur (a ++ String "." s) = Some (cur ++ a, s).
+Proof.
+  induction a as [|c a IH]; intros cur s H; simpl.
+  - rewrite sapp_nil_r. reflexivity.
+  - simpl in H. apply andb_true_iff in H. destruct H as [H1 H2].
+    unfold not_char in H1. apply negb_true_iff in H1. rewrite H1.
+    rewrite IH by exact H2. rewrite sapp_assoc. reflexivity.
+Qed.
